@@ -344,6 +344,9 @@ func c09CheckCLI(c c09Str, st *stats.Run) error {
 	dir, _ = filepath.Abs(dir)
 	defer os.RemoveAll(dir)
 	env := []string{"PATH=/nonexistent", "HOME=" + dir}
+	if b386 := os.Getenv("VERIF_BIN386"); b386 != "" && len(c.S)%2 == 1 {
+		bin = b386 // the commands as built for a 32-bit platform
+	}
 	asRecipient := strings.HasPrefix(strings.ToLower(c.S), "age1")
 	valid := func(hrp string) bool {
 		h, d, err := refage.Bech32Decode(c.S)
